@@ -1360,6 +1360,269 @@ fn fu_json(c: &FuCase, req: Option<&[u8]>, out: Option<&[Vec<u8>]>) -> Value {
     })
 }
 
+// ------------------------------------------------------------------------------------------
+// FP: the objects built through the PRODUCTION construction paths, every knob non-default
+//
+// What `hickory-dns` (bin/src/lib.rs) does with its configuration: zone handlers through
+// `FileZoneHandler::try_from_config` / `SqliteZoneHandler::try_from_config(origin, zone_type,
+// axfr_policy, enable_dnssec, root_dir, &SqliteConfig{zone_path, journal_path, allow_update,
+// tsig_keys[{name, key_file, algorithm, fudge}]})`, `catalog.set_nsid`, `catalog.upsert(zone name,
+// handlers)`, `Server::with_access(catalog, deny, allow)`; a second start finds the journal and takes
+// the recovery branch of the constructor; embedding applications use `Server::new(handler)`.
+// NOT drivable here: `DnsServer::run` itself (TOML -> Config -> the calls above) lives in the
+// `hickory-dns` binary crate, which the harness workspace does not build, and its
+// `register_socket` / `register_listener(timeout, buffer size)` need real sockets.
+
+const FP_KEY: &[u8] = b"c11-production-path-key-0123456789abcdef";
+const FP_DENY: [&str; 2] = ["198.51.100.0/24", "2001:db8::/32"];
+const FP_ALLOW: [&str; 1] = ["198.51.100.7/32"];
+/// (source, allowed under FP_DENY/FP_ALLOW)
+const FP_SOURCES: [(&str, bool); 4] = [("198.51.100.9:5353", false), ("[2001:db8::5]:5353", false), ("198.51.100.7:5353", true), ("192.0.2.1:5353", true)];
+
+fn fp_signer(fudge: u16) -> TSigner {
+    TSigner::new(FP_KEY.to_vec(), TsigAlgorithm::HmacSha512, Name::from_str("k1.").unwrap(), fudge).unwrap()
+}
+
+fn fp_zone_text(origin: &str) -> String {
+    format!(
+        "@ 300 IN SOA ns.o. h.o. 1 1 1 1 300\n@ 300 IN NS ns.o.\n@ 300 IN TXT \"zone={origin}\"\nx 300 IN TXT \"zone={origin}\"\n"
+    )
+}
+
+/// The catalog as the binary builds it from its configuration (production constructors).
+fn fp_catalog_from_config(rt: &tokio::runtime::Runtime, dir: &std::path::Path) -> Result<Catalog, String> {
+    use hickory_server::store::file::{FileConfig, FileZoneHandler};
+    use hickory_server::store::sqlite::{SqliteConfig, TsigKeyConfig};
+    let f_name = Name::from_str("f.z.").unwrap();
+    let s_name = Name::from_str("s.z.").unwrap();
+    let file = FileZoneHandler::try_from_config(
+        f_name.clone(),
+        ZoneType::Secondary,
+        AxfrPolicy::AllowAll,
+        Some(dir),
+        &FileConfig { zone_path: "f.zone".into() },
+        None,
+    )?;
+    let cfg = SqliteConfig {
+        zone_path: "s.zone".into(),
+        journal_path: "s.jrnl".into(),
+        allow_update: true,
+        tsig_keys: vec![TsigKeyConfig { name: "k1.".into(), key_file: "k1.key".into(), algorithm: TsigAlgorithm::HmacSha512, fudge: 123 }],
+    };
+    let sqlite = rt.block_on(SqliteZoneHandler::<TokioRuntimeProvider>::try_from_config(
+        s_name.clone(),
+        ZoneType::Primary,
+        AxfrPolicy::AllowSigned,
+        false,
+        Some(dir),
+        &cfg,
+        None,
+    ))?;
+    let mut catalog = Catalog::new();
+    catalog.set_nsid(Some(hickory_proto::rr::rdata::opt::NSIDPayload::new(*b"fp-nsid").unwrap()));
+    catalog.upsert(f_name.into(), vec![Arc::new(file)]);
+    catalog.upsert(s_name.into(), vec![Arc::new(sqlite)]);
+    Ok(catalog)
+}
+
+/// The same configuration built directly (`empty` + `upsert_mut`, `SqliteZoneHandler::new` +
+/// setters) — what every other family does.
+fn fp_catalog_direct() -> Catalog {
+    let owners = |o: &str| vec![Name::from_str(o).unwrap(), Name::from_str(&format!("x.{o}")).unwrap()];
+    let f = build_zone(&Z { origin: "f.z.", axfr: true, secondary: true, chain: 0, external: false }, &owners("f.z."));
+    let s_mem = build_zone(&Z { origin: "s.z.", axfr: true, secondary: false, chain: 0, external: false }, &owners("s.z."));
+    let mut s = SqliteZoneHandler::<TokioRuntimeProvider>::new(s_mem, AxfrPolicy::AllowSigned, true, false);
+    s.set_tsig_signers(vec![fp_signer(123)]);
+    let mut catalog = Catalog::new();
+    catalog.set_nsid(Some(hickory_proto::rr::rdata::opt::NSIDPayload::new(*b"fp-nsid").unwrap()));
+    catalog.upsert(LowerName::new(&Name::from_str("f.z.").unwrap()), vec![Arc::new(f)]);
+    catalog.upsert(LowerName::new(&Name::from_str("s.z.").unwrap()), vec![Arc::new(s)]);
+    catalog
+}
+
+/// (what, request bytes, tcp, rcode a source that is allowed must get, minimum ANCOUNT then)
+fn fp_probes() -> Vec<(&'static str, Vec<u8>, bool, u16, u16)> {
+    let n = |s: &str| name_wire(s);
+    let now = std::time::SystemTime::now().duration_since(std::time::UNIX_EPOCH).unwrap().as_secs();
+    let sign = |bytes: Vec<u8>, time: u64| {
+        let mut m = Message::from_vec(&bytes).expect("FP request decodes");
+        // the client's own fudge (300) differs from the one configured for the server's key (123):
+        // the server's shows in the TSIG of its responses
+        m.finalize(&fp_signer(300), time).expect("sign");
+        m.to_vec().unwrap()
+    };
+    let marker = {
+        let t = "zone=s.z.";
+        let mut rd = vec![t.len() as u8];
+        rd.extend_from_slice(t.as_bytes());
+        rd
+    };
+    let update = |id: u16| {
+        let mut m = hdr(id, 0x2800, [1, 0, 1, 0]);
+        m.extend(question(&n("s.z."), 6, 1));
+        m.extend(rr(&n("n.s.z."), 16, 1, 60, &marker));
+        m
+    };
+    let upd_f = {
+        let mut m = hdr(0x0f05, 0x2800, [1, 0, 1, 0]);
+        m.extend(question(&n("f.z."), 6, 1));
+        m.extend(rr(&n("n.f.z."), 16, 1, 60, &marker));
+        m
+    };
+    vec![
+        ("TXT x.f.z. (file zone)", build_request(0x0f01, 0x0100, &n("x.f.z."), 16, 1, 0), false, 0, 1),
+        ("SOA f.z.", build_request(0x0f02, 0x0100, &n("f.z."), 6, 1, 0), false, 0, 1),
+        ("TXT q.f.z. (no such name)", build_request(0x0f03, 0x0100, &n("q.f.z."), 16, 1, 0), false, 3, 0),
+        ("AXFR f.z. (axfr_policy AllowAll)", build_request(0x0f04, 0x0000, &n("f.z."), 252, 1, 0), true, 0, 4),
+        ("UPDATE f.z. (zone_type Secondary)", upd_f, false, 4, 0),
+        ("TXT x.s.z. (sqlite zone)", build_request(0x0f06, 0x0100, &n("x.s.z."), 16, 1, 0), false, 0, 1),
+        ("AXFR s.z. unsigned (axfr_policy AllowSigned)", build_request(0x0f07, 0x0000, &n("s.z."), 252, 1, 0), true, 5, 0),
+        ("AXFR s.z. signed with the configured key", sign(build_request(0x0f08, 0x0000, &n("s.z."), 252, 1, 0), now), true, 0, 4),
+        ("UPDATE s.z. signed (allow_update, key, algorithm)", sign(update(0x0f09), now), false, 0, 0),
+        ("UPDATE s.z. signed 1000 s ago (outside the window)", sign(update(0x0f0a), now - 1000), false, 9, 0),
+        ("UPDATE s.z. unsigned", update(0x0f0b), false, 5, 0),
+        ("TXT n.s.z. (the name the update added)", build_request(0x0f0c, 0x0100, &n("n.s.z."), 16, 1, 0), false, 0, 1),
+        ("TXT x.o. (no zone)", build_request(0x0f0d, 0x0100, &n("x.o."), 16, 1, 0), false, 5, 0),
+        ("TXT x.f.z. with NSID (catalog.set_nsid)", build_request(0x0f0e, 0x0100, &n("x.f.z."), 16, 1, 9), false, 0, 1),
+    ]
+}
+
+/// Run the probe set against `server` from every FP source; `lists` = the FP deny/allow lists are
+/// configured. Returns the (rcode, an, ns, ar, tc, response TSIG fudge) tuples for the differential.
+fn fp_run<T: hickory_server::server::RequestHandler>(
+    w: &Worker,
+    path: &str,
+    server: &Server<T>,
+    lists: bool,
+    l: &mut Local,
+) -> Vec<(u16, u16, u16, u16, bool, u16)> {
+    let cfg = fd::Config {
+        zones: vec![labels_of("f.z."), labels_of("s.z.")],
+        unjudged: vec![false, false],
+        deny: if lists { FP_DENY.iter().map(|s| fd::Net::parse(s)).collect() } else { vec![] },
+        allow: if lists { FP_ALLOW.iter().map(|s| fd::Net::parse(s)).collect() } else { vec![] },
+    };
+    let mut seen = vec![];
+    for (src, allowed_with_lists) in FP_SOURCES {
+        let src: SocketAddr = src.parse().unwrap();
+        let allowed = !lists || allowed_with_lists;
+        for (what, req, tcp, want_rcode, min_an) in fp_probes() {
+            l.eval();
+            l.nontrivial(fnv64(&req[..12.min(req.len())]) ^ fnv64(format!("{path}{src}{what}").as_bytes()));
+            let witness = |out: Option<&[Vec<u8>]>| {
+                json!({"family": "FP", "fp": true, "path": path, "probe": what, "src": src.to_string(), "lists_configured": lists,
+                       "request": hex::enc(&req), "responses": out.map(|o| o.iter().map(|r| hex::enc(r)).collect::<Vec<_>>())})
+            };
+            match exec_on(&w.rt, server, src, &req, if tcp { Protocol::Tcp } else { Protocol::Udp }) {
+                Ok(out) => {
+                    if let Some(f) = judge(&cfg, src, &req, &out, l) {
+                        l.violation(&format!("construction-path:{path}:{}", f.key), &format!("{what}: {}", f.what), || witness(Some(&out)));
+                    }
+                    let Some(r) = out.first().filter(|r| r.len() >= 12) else {
+                        seen.push((0xffff, 0, 0, 0, false, 0));
+                        continue;
+                    };
+                    let v = view_response(r);
+                    let an = u16::from_be_bytes([r[6], r[7]]);
+                    // fudge field of the TSIG the server signed the response with (0: unsigned response)
+                    let fudge = v
+                        .records
+                        .last()
+                        .filter(|x| x.rtype == 250)
+                        .and_then(|x| fd::read_name(r, x.rdata_start).ok())
+                        .and_then(|a| r.get(a.next + 6..a.next + 8).map(|f| u16::from_be_bytes([f[0], f[1]])))
+                        .unwrap_or(0);
+                    seen.push((v.rcode, an, u16::from_be_bytes([r[8], r[9]]), u16::from_be_bytes([r[10], r[11]]), v.tc, fudge));
+                    let want = if allowed { want_rcode } else { fd::REFUSED };
+                    if fudge != 0 && fudge != 123 {
+                        l.violation(
+                            &format!("construction-path:{path}:configured-knob-not-in-effect"),
+                            &format!("{what} from {src}: the response is signed with fudge {fudge}, the key is configured with fudge 123"),
+                            || witness(Some(&out)),
+                        );
+                    } else if v.rcode != want || (allowed && an < min_an) {
+                        l.violation(
+                            &format!("construction-path:{path}:configured-knob-not-in-effect"),
+                            &format!(
+                                "{what} from {src}: rcode {} with {an} answers, the configured knob values call for {} with >= {} answers",
+                                fd::rcode_name(v.rcode),
+                                fd::rcode_name(want),
+                                if allowed { min_an } else { 0 }
+                            ),
+                            || witness(Some(&out)),
+                        );
+                    } else {
+                        l.outcome("checked:construction-path-probe");
+                    }
+                }
+                Err(p) => {
+                    seen.push((0xfffe, 0, 0, 0, false, 0));
+                    l.violation(&format!("panic:{}", vcore::short_loc(&p.loc)), &p.msg, || witness(None));
+                }
+            }
+        }
+    }
+    seen
+}
+
+fn run_fp(w: &Worker, l: &mut Local) {
+    let dir = std::path::PathBuf::from(format!("/var/tmp/c11-fp-{}", std::process::id()));
+    let _ = std::fs::remove_dir_all(&dir);
+    std::fs::create_dir_all(&dir).expect("scratch directory for zone files");
+    std::fs::write(dir.join("f.zone"), fp_zone_text("f.z.")).unwrap();
+    std::fs::write(dir.join("s.zone"), fp_zone_text("s.z.")).unwrap();
+    std::fs::write(dir.join("k1.key"), FP_KEY).unwrap();
+    let nets = |v: &[&str]| v.iter().map(|s| s.parse::<ipnet::IpNet>().unwrap()).collect::<Vec<_>>();
+    let fail = |l: &mut Local, what: &str, e: String| {
+        l.violation(&format!("construction-path:{what}:constructor-failed"), &e, || json!({"family": "FP", "fp": true, "path": what}));
+    };
+    // first start: production constructors + Server::with_access with DIFFERENT deny / allow lists
+    match fp_catalog_from_config(&w.rt, &dir) {
+        Ok(catalog) => {
+            let server = Server::with_access(catalog, nets(&FP_DENY), nets(&FP_ALLOW));
+            let got = fp_run(w, "from-config+with_access", &server, true, l);
+            // differential: the same knob values through the direct constructors
+            let direct = Server::with_access(fp_catalog_direct(), nets(&FP_DENY), nets(&FP_ALLOW));
+            let want = fp_run(w, "direct+with_access", &direct, true, l);
+            if got != want {
+                let k = got.iter().zip(want.iter()).position(|(a, b)| a != b).unwrap_or(0);
+                l.violation(
+                    "construction-path:from-config-differs-from-direct-construction",
+                    &format!("probe number {k} (sources x probes): from-config {:?}, direct {:?} (rcode, an, ns, ar, tc, response TSIG fudge)", got.get(k), want.get(k)),
+                    || json!({"family": "FP", "fp": true, "from_config": format!("{got:?}"), "direct": format!("{want:?}")}),
+                );
+            } else {
+                l.outcome("checked:construction-path-differential");
+            }
+        }
+        Err(e) => fail(l, "from-config+with_access", e),
+    }
+    // second start on the same directory (the journal exists now: recovery branch) + Server::new
+    match fp_catalog_from_config(&w.rt, &dir) {
+        Ok(catalog) => {
+            let server = Server::new(catalog);
+            let got = fp_run(w, "second-start+Server::new", &server, false, l);
+            let direct = Server::with_access(fp_catalog_direct(), Vec::<ipnet::IpNet>::new(), Vec::<ipnet::IpNet>::new());
+            // (the direct zone has not seen the first start's update: apply it once, unjudged)
+            let warm = fp_probes();
+            let _ = exec_on(&w.rt, &direct, "192.0.2.1:5353".parse().unwrap(), &warm[8].1, Protocol::Udp);
+            let want = fp_run(w, "direct+empty-lists", &direct, false, l);
+            if got != want {
+                let k = got.iter().zip(want.iter()).position(|(a, b)| a != b).unwrap_or(0);
+                l.violation(
+                    "construction-path:second-start-differs-from-direct-construction",
+                    &format!("probe number {k}: second start {:?}, direct {:?} (rcode, an, ns, ar, tc, response TSIG fudge)", got.get(k), want.get(k)),
+                    || json!({"family": "FP", "fp": true, "second_start": format!("{got:?}"), "direct": format!("{want:?}")}),
+                );
+            } else {
+                l.outcome("checked:construction-path-differential");
+            }
+        }
+        Err(e) => fail(l, "second-start+Server::new", e),
+    }
+    let _ = std::fs::remove_dir_all(&dir);
+}
+
 fn run_fu(w: &mut Worker, c: &FuCase, l: &mut Local) {
     l.eval();
     let srv = build_fu_srv(w, c.acl, c.policy);
@@ -1785,6 +2048,10 @@ fn main() {
 
     if let Some((_key, case)) = ctx.replay_case() {
         let mut w = Worker::new(&world);
+        if case["fp"].as_bool() == Some(true) {
+            ctx.with_local(|l| run_fp(&w, l));
+            ctx.finish(false);
+        }
         if case["fc"].is_object() {
             let start = case["fc"]["start"].as_u64().unwrap() as usize;
             let muts: Vec<usize> = case["fc"]["mutations"].as_array().unwrap().iter().map(|x| x.as_u64().unwrap() as usize).collect();
@@ -2007,6 +2274,18 @@ fn main() {
     }
 
     fam_mark("FU");
+
+    // ---- FP: production construction paths, every knob non-default (see the comment at run_fp) --
+    {
+        let w = Worker::new(&world);
+        ctx.with_local(|l| run_fp(&w, l));
+        ctx.set("FP_construction_path_probes", json!(fp_probes().len() * FP_SOURCES.len() * 4));
+        if ctx.outcome_count("checked:construction-path-differential") < 2 {
+            ctx.machinery_failure("FP: the construction-path differentials did not both run to the end");
+        }
+    }
+
+    fam_mark("FP");
 
     // ---- FX: the response cannot be delivered (the receiving side of the stream handle is gone) --
     // every request kind of the interleaving alphabet x 3 configurations x UDP/TCP: nothing to
